@@ -7,7 +7,9 @@ use std::{
     time::Instant,
 };
 
-pub const VERIF_ROOT: &str = "/verif";
+pub fn verif_root() -> String {
+    std::env::var("VERIF_ROOT").unwrap_or_else(|_| "/verif".to_string())
+}
 
 #[derive(Clone, Copy, PartialEq, Eq, Debug)]
 pub enum Tier {
@@ -125,7 +127,7 @@ pub struct KnownFinding {
 }
 
 pub fn load_known_findings() -> Vec<KnownFinding> {
-    let path = Path::new(VERIF_ROOT).join("known_findings.json");
+    let path = Path::new(&verif_root()).join("known_findings.json");
     let Ok(text) = std::fs::read_to_string(&path) else {
         return Vec::new();
     };
@@ -162,7 +164,7 @@ pub fn finish(mut ctx: Ctx) -> i32 {
             ));
         } else {
             new_violations += 1;
-            let dir = PathBuf::from(VERIF_ROOT).join("replays").join(ctx.id);
+            let dir = PathBuf::from(verif_root()).join("replays").join(ctx.id);
             let _ = std::fs::create_dir_all(&dir);
             let path = dir.join(format!("{}.json", sanitize(sig)));
             let body = json!({
@@ -196,7 +198,7 @@ pub fn finish(mut ctx: Ctx) -> i32 {
         "wall_s": wall,
         "violations": new_violations,
     });
-    let evdir = PathBuf::from(VERIF_ROOT).join("evidence");
+    let evdir = PathBuf::from(verif_root()).join("evidence");
     let _ = std::fs::create_dir_all(&evdir);
     std::fs::write(
         evdir.join(format!("{}.json", ctx.id)),
